@@ -20,6 +20,37 @@ PATTERNS = [
 ]
 
 
+def _assume_spec_name(code):
+    i = code.find('assume_specification') + len('assume_specification')
+    while i < len(code) and code[i].isspace():
+        i += 1
+    if i < len(code) and code[i] == '<':
+        depth = 0
+        while i < len(code):
+            if code[i] == '<':
+                depth += 1
+            elif code[i] == '>' and code[i - 1] != '-':
+                depth -= 1
+                if depth == 0:
+                    i += 1
+                    break
+            i += 1
+    j = code.find('[', i)
+    if j < 0:
+        return None
+    depth = 0
+    k = j
+    while k < len(code):
+        if code[k] == '[':
+            depth += 1
+        elif code[k] == ']':
+            depth -= 1
+            if depth == 0:
+                return code[j + 1:k].strip()
+        k += 1
+    return None
+
+
 def scan(path, allow_lines):
     text = open(path, encoding='utf-8').read()
     lines = text.split('\n')
@@ -41,8 +72,7 @@ def scan(path, allow_lines):
             # name = the next fn/struct/const/type identifier, or the bracketed path of assume_specification
             name = None
             if kind == 'assume_specification':
-                m = re.search(r'assume_specification(?:<[^>]*>)?\s*\[\s*(.*?)\s*\]', code)
-                name = m.group(1) if m else None
+                name = _assume_spec_name(code)
             elif kind in ('assume', 'admit'):
                 # the enclosing fn
                 for k in range(idx, -1, -1):
